@@ -98,6 +98,10 @@ def options(rng):
         if rng.random() < p:
             o[name] = True
             cls.append(name.lstrip('-'))
+    if o.get('--hyperlinks') and rng.random() < 0.6:
+        # (hash-like words of passed-through lines are only linked on a terminal: through a pipe the bytes stay as they are)
+        o['--hyperlinks-commit-link-format'] = 'https://example.com/c/{commit}'
+        cls.append('commit-link-format')
     if rng.random() < 0.3:
         o['--syntax-theme'] = rng.choice(gen.THEMES_DARK + gen.THEMES_LIGHT + ['none'])
     if rng.random() < 0.3:
